@@ -157,6 +157,11 @@ def srcModelAnswer (i : SrcInst) (op : String) : Option V :=
   | _ =>
     -- plain / cache on top: `pull` answers in order; `cached` = the most recent answer (`none` before)
     let k := (log.filter (· == "pull")).length
+    match i.view with
+    | some (v, n) =>
+      let idx := if v == "skip" then (k - 1) + n else (k - 1) * n
+      ((exprPulls i.e (idx + 1)).getLast?).getD none
+    | none =>
     if op == "cached" then (if (i.log.filter (· == "pull")).length == 0 then none else ((exprPulls i.e k).getLast?).getD none)
     else ((exprPulls i.e k).getLast?).getD none
 
@@ -189,6 +194,9 @@ def srcSpecAnswer (i : SrcInst) (op : String) : Option V :=
     else if i.top == "peek" then ((peekSpecRaw raw 0 ((i.log ++ [op]).map (· == "peek"))).getLast?).getD none
     else raw consumed
   | none =>
+  match i.view with
+  | some (v, n) => (specDen i.e).answer (if v == "skip" then consumed + n else consumed * n)
+  | none =>
   match op with
   | "cached" => if consumed == 0 then none else (specDen i.e).answer (consumed - 1)
   | _ =>
@@ -220,6 +228,13 @@ def stepSourceOp (d : DState) (op : String) (toks impl : List String) : Option (
     if (top == "src" || top == "peek" || top == "scache") && (expr.splitOn "burst[").length > 1 then do
       let r ← parseRExprStr expr
       let d := (d.putSrc (← id.toNat?) { e := .iter [], top := top, raw := some r }).flag "src.burst"
+      some (report d op { model := "ok", impl := implS, kind := top })
+    else if top == "src" && (expr.startsWith "rtskip(" || expr.startsWith "rtstep(") then do
+      -- `rtskip(n,E)` / `rtstep(k,E)`: an iterator view of the bridge over the tree `E`
+      let inner := String.ofList ((expr.toList.drop 7).dropLast)
+      let nStr := String.ofList (inner.toList.takeWhile (· != ','))
+      let e ← parseExprStr (String.ofList ((inner.toList.dropWhile (· != ',')).drop 1))
+      let d := (d.putSrc (← id.toNat?) { e := e, top := top, view := some (if expr.startsWith "rtskip(" then "skip" else "step", ← nStr.toNat?) }).flag "src.iter-view"
       some (report d op { model := "ok", impl := implS, kind := top })
     else if top == "src" || top == "peek" || top == "scache" then do
       let e ← parseExprStr expr
@@ -270,7 +285,7 @@ def baseSinkKind (kind : String) : String :=
   if kind == "own_sum" then "sink_unit_sum" else
   if kind.endsWith "_f64" then String.ofList (kind.toList.take (kind.length - 4)) else
   -- … and at the smallest machine integers
-  if kind.endsWith "_u8" || kind.endsWith "_i8" then String.ofList (kind.toList.take (kind.length - 3)) else kind
+  if kind.endsWith "_u8" || kind.endsWith "_i8" || kind.endsWith "_fz" then String.ofList (kind.toList.take (kind.length - 3)) else kind
 
 def mkSink (kind : String) : Option (Sk V) :=
   match baseSinkKind kind with
